@@ -179,6 +179,8 @@ def handle_task(task: dict, repo: str) -> dict:
                 json.dumps(res["transcript"], sort_keys=True).encode()).hexdigest()
             out["transcript_len"] = len(res["transcript"])
         return out
+    if t == "realpipe":
+        return realpipe(task, repo)
     if t == "case":
         from dst import props
 
@@ -198,6 +200,84 @@ def handle_task(task: dict, repo: str) -> dict:
         out["sched_digest"] = _h.sha256(json.dumps(case, sort_keys=True).encode()).hexdigest()[:16]
         return out
     raise ValueError(t)
+
+
+def realpipe(task, repo):
+    """stub cross-check: the same schedule in the simulator and against `python -m fortls` as
+    a real subprocess over real pipes (with the real multiprocessing.Pool) inside the same kind
+    of sandbox; the decoded output frames must be equal."""
+    import subprocess
+
+    from dst import frames, oracles, props, sim
+
+    sched = task.get("sched") or props.get(task["gen"]["prop"]).gen_sched(task["gen"])
+    sched = dict(sched, want_out=True, faults=[], buggify=[], chunks=None, order=None, pool={},
+                 strict_edits=False)
+    sched["ops"] = [{k: v for k, v in op.items() if k != "cut"} for op in sched["ops"] if op["k"] == "msg"]
+
+    def norm(fr):
+        # directory enumeration order is real in the subprocess: compare modulo what LSP leaves unordered
+        fr = oracles.strip_tb(fr)
+        if "result" in fr:
+            fr = dict(fr, result=oracles.normalise_result("", fr["result"]))
+        if "params" in fr:
+            fr = dict(fr, params=oracles.normalise_result("", fr["params"]))
+        return fr
+
+    a = exec_run(sched, repo)
+    if a.get("status") != "done":
+        return {"status": "HARNESS", "error": "simulated side: " + str(a.get("error")), "violations": [],
+                "fired": [], "digest": ""}
+    sim_frames = [norm(f) for _, f in a["out"]]
+    r, w = os.pipe()
+    pid = os.fork()
+    if pid == 0:
+        try:
+            os.close(r)
+            sim.enter_sandbox("/dev/shm/s%06x" % (os.getpid() % 0xFFFFFF))
+            if sim.S.mode != "ns":
+                os.write(w, json.dumps({"skip": "no mount namespace"}).encode())
+                os._exit(0)
+            world = sim.World()
+            world.load_tree(sched.get("tree", {}))
+            stream = b"".join(frames.encode_frame(op["m"], op.get("hdr", "cl-first"), op.get("esc", False))
+                              for op in sched["ops"])
+            env = dict(os.environ, PYTHONPATH=repo, PYTHONHASHSEED=os.environ.get("PYTHONHASHSEED", "0"))
+            pr = subprocess.run([sys.executable, "-B", "-m", "fortls"] + list(sched.get("argv", [])),
+                                input=stream, capture_output=True, cwd=sim.ROOT, env=env, timeout=100)
+            rd = frames.FrameReader()
+            got = rd.feed(pr.stdout)
+            err = rd.finish()
+            os.write(w, json.dumps({"frames": [norm(f) for f in got],
+                                    "frame_error": str(err) if err else None,
+                                    "rc": pr.returncode, "stderr": pr.stderr.decode("utf-8", "replace")[-300:]}).encode())
+        except BaseException:
+            os.write(w, json.dumps({"error": traceback.format_exc()}).encode())
+        os._exit(0)
+    os.close(w)
+    chunks = []
+    while True:
+        b = os.read(r, 1 << 20)
+        if not b:
+            break
+        chunks.append(b)
+    os.close(r)
+    os.waitpid(pid, 0)
+    real_ = json.loads(b"".join(chunks) or b"{}")
+    if "skip" in real_:
+        return {"status": "done", "skipped": real_["skip"], "violations": [], "fired": [], "digest": ""}
+    if "frames" not in real_:
+        return {"status": "HARNESS", "error": "real side: " + str(real_), "violations": [], "fired": [],
+                "digest": ""}
+    equal = real_["frames"] == sim_frames
+    out = {"status": "done", "equal": equal, "n": len(sim_frames), "violations": [], "fired": [],
+           "digest": a.get("digest", "")}
+    if not equal:
+        k = next((j for j in range(min(len(sim_frames), len(real_["frames"])))
+                  if sim_frames[j] != real_["frames"][j]), min(len(sim_frames), len(real_["frames"])))
+        out["first_diff"] = {"index": k, "sim": str(sim_frames[k:k + 1])[:500],
+                             "real": str(real_["frames"][k:k + 1])[:500], "stderr": real_.get("stderr")}
+    return out
 
 
 def main():
